@@ -6,7 +6,8 @@ PROP = "C09"
 LEVEL = "other"
 H = "vf.contracts.c_codegen."
 G = "a816.parse.codegen."
-FUNCTIONS = [G + "generate_macro", G + "generate_macro_application", G + "generate_code_lookup", G + "generate_compound", "a816.parse.nodes.SymbolNode.pc_after"]
+FUNCTIONS = [G + "generate_macro", G + "generate_macro_application", G + "generate_code_lookup", G + "generate_compound", "a816.parse.nodes.SymbolNode.pc_after",
+             "a816.symbols.Resolver.restore_scope"]
 MIN_OBLIGATIONS = 60
 EXPLANATION = ("generate_macro + generate_macro_application are executed on the real code for macro / argument shapes covering the quantifier: literal "
                "arguments, call-site symbols with symbolic values, argument expressions, names that coincide with parameter names, arguments "
@@ -119,6 +120,12 @@ def own_cases(E):
 
 def cases(E):
     cs = own_cases(E)
+    # "labels defined in the body are local to one application": what a named scope of the body exports goes to ITS enclosing scope -- the
+    # application's own scope -- and no further (so two applications never share `s.l`)
+    from vf.props import C02 as c02
+    for kind, ex in (("named", True), ("named", False), ("named-in-loop", True)):
+        cs.append(Case("vf.contracts.c_labels.restore_scope_export_contract", f"{kind} scope closed inside an application scope,exports={ex}", c02.shape_export(kind, ex),
+                       target=["a816.symbols.Resolver.restore_scope"]))
     # scope discipline of the expansion (every scoped construct opens exactly its own scope, announced and closed by the position nodes the later
     # passes replay; errors of expanded statements propagate): labels and parameters live in those scopes
     from vf.props import expansion
@@ -126,7 +133,8 @@ def cases(E):
     return cs
 
 
-OPTIONAL_CHECKS = {"macro_application_contract": ["parameter_bound_to_call_site_value"]}
+OPTIONAL_CHECKS = {"macro_application_contract": ["parameter_bound_to_call_site_value"],
+                   "restore_scope_export_contract": ["exported_same_value", "only_exports_added", "nothing_exported", "parent_symbols_kept"]}
 
 
 def bounded(tier, seed):
